@@ -549,6 +549,7 @@ pub fn plan(property: &str, tier: Tier) -> Option<Plan> {
                 jobs.push(w("misuse/cycle-4", prof, if q { 4 } else { 6 }));
                 jobs.push(w("misuse/cross", prof, if q { 5 } else { 6 }));
                 jobs.push(w("misuse/nested", prof, if q { 5 } else { 6 }));
+                jobs.push(w("misuse/scope-cycle", prof, if q { 7 } else { 10 }));
             }
             ("model_checking", "limited state vs. an unlimited twin (the needed height is read from the twin through hook H1, no height convention baked in): N in 1..6 (thorough 10), set_max_height_allowed(M) with M in 1..8 (12) at every quiescent point of build / observe / stabilise / grow / shrink histories over map chains and bind nests whose heights land around N; all grammar-enumerated programs of <= 4 nodes closing a cycle through 1-2 binds, returning a foreign-state node, or calling stabilise from a node function / update handler; drop of all handles in 4 orders after every expected panic; both debug-assertion configurations", vec!["a height above the limit that is needed only transiently within one stabilise is unjudged", "shrinking below a height that was seen but is no longer in use is unjudged", "hangs / stack overflows are attributed by the supervisor's watchdog and marker file"], if q { 60 } else { 900 })
         }
